@@ -126,8 +126,8 @@ func ruleC07Order(e *Env) {
 		}
 		for _, fn := range flow.SortedFuncs(reporters) {
 			seen := map[ssa.Value]bool{}
-			var follow func(v ssa.Value)
-			follow = func(v ssa.Value) {
+			var follow func(v ssa.Value, arith bool)
+			follow = func(v ssa.Value, arith bool) {
 				if seen[v] || v.Referrers() == nil {
 					return
 				}
@@ -135,16 +135,31 @@ func ruleC07Order(e *Env) {
 				for _, r := range *v.Referrers() {
 					switch x := r.(type) {
 					case *ssa.Convert:
-						follow(x)
+						// the sum narrowed again (int32(int64(year)+1)) wraps just the same
+						if w, ok := pred.IntWidth(x.Type()); arith && ok && w <= 32 {
+							wraps = append(wraps, fmt.Sprintf("%s (%s)", flow.FnName(x.Parent()), e.posOf(x)))
+						}
+						follow(x, arith)
 					case *ssa.ChangeType:
-						follow(x)
+						follow(x, arith)
+					case *ssa.Call:
+						// handed to a helper of the module (calendarYear(d.year)): the arithmetic is looked for there
+						if g := e.C.StaticCallee(&x.Call); g != nil && flow.InRepo(g) {
+							o := flow.Origin(g)
+							for ai, a := range x.Call.Args {
+								if a == v && ai < len(o.Params) {
+									follow(o.Params[ai], arith)
+								}
+							}
+						}
 					case *ssa.BinOp:
 						switch x.Op {
 						case token.ADD, token.SUB, token.MUL, token.SHL:
 							n++
 							if w, ok := pred.IntWidth(x.Type()); ok && w <= 32 {
-								wraps = append(wraps, fmt.Sprintf("%s (%s)", flow.FnName(fn), e.posOf(x)))
+								wraps = append(wraps, fmt.Sprintf("%s (%s)", flow.FnName(x.Parent()), e.posOf(x)))
 							}
+							follow(x, true)
 						}
 					case *ssa.UnOp:
 						if x.Op == token.SUB {
@@ -159,7 +174,7 @@ func ruleC07Order(e *Env) {
 			for _, b := range fn.Blocks {
 				for _, in := range b.Instrs {
 					if v, ok := in.(ssa.Value); ok && isYear(v) {
-						follow(v)
+						follow(v, false)
 					}
 				}
 			}
